@@ -120,7 +120,7 @@ def check_two_point(ctx, fid, kind):
         for c, d in zip(draws, doms):
             good = d is not None and d[0] == "incl" and d[1][0] == "const" and d[1][3] == 0 and is_len_of(d[2], 0) and c[3][0] == RNG
             ok_dom = ok_dom and good
-        if i == [j for j, q in enumerate(paths) if len_guard(q) == "equal"][0]:
+        if i == ([j for j, q in enumerate(paths) if len_guard(q) == "equal"] or [i])[0]:
             ctx.check(ok_dom, "R10.3", "%s/cut-points-from-0..=len" % tag, "; ".join(short(c[3][1], 4) for c in draws), at,
                       bad_detail="cut points must be drawn from 0..=len (so that a segment can end at the last gene and an empty parent does not panic); extracted ranges: " +
                       "; ".join(short(c[3][1], 5) for c in draws))
